@@ -31,7 +31,8 @@ EXPECTED = {
 
 # rules of sibling properties that are necessary conditions of this one too
 # (evaluated by the sibling module on the same graphs, reported under this property)
-ALSO = {'C01': {'R01.6': 'the entry whose volume was judged is the entry that is moved',
+ALSO = {'C08': {'R08.3': '$topdir/.Trash/$uid is used only when $topdir/.Trash passes the checks (a directory, not a symlink, sticky); otherwise $topdir/.Trash-$uid'},
+ 'C01': {'R01.6': 'the entry whose volume was judged is the entry that is moved',
          'R01.7': 'copy+delete only for EXDEV (and EXDEV only behind the home-fallback gate): '
                   'never a silent cross-device copy for another reason'},
  'C18': {'R18.3': 'the path moved is the normalised argument the volume was computed for'},
